@@ -75,6 +75,15 @@ def stepObj (o : Obj) (args : List String) : Option (Obj × String) :=
     | some e => some (finishStep o m op b
         (if b then boundResume m op (.throw e) o.sys else callResume m op (.throw e) o.sys))
     | none => none
+  | ["kill"], _ =>
+    -- `coro.close()` called directly on the driven coroutine, outside any monitor
+    match SCoro.close o.c o.sys.coro o.sys.env with
+    | (cs, out, env) =>
+      let o' : Obj := { o with sys := ⟨cs, env⟩ }
+      let co : CallOut := match out with
+        | .raise e => .raised e
+        | _ => .returned 0
+      some (o', report o' co)
   | ["close"], some (m, op, b) =>
     let r := if b then boundClose m op o.sys else callClose m op o.sys
     let o' : Obj := { o with sys := r.1, pending := none }
